@@ -30,6 +30,10 @@ Theorem c06_meta_utf16_is_utf8 : forall raw e,
   detect_meta raw = Some e -> str_eqb e utf16le || str_eqb e utf16be = false.
 Proof. exact meta_never_utf16. Qed.
 
+Theorem c06_meta_x_user_defined_is_windows_1252 : forall raw e,
+  detect_meta raw = Some e -> str_eqb e [120;45;117;115;101;114;45;100;101;102;105;110;101;100] = false.
+Proof. exact meta_never_x_user_defined. Qed.
+
 (* the prescan reads only the first 1024 bytes *)
 Theorem c06_prescan_window : forall raw, detect_meta raw = detect_meta (firstn (N.to_nat numBytesMeta) raw).
 Proof. exact prescan_window. Qed.
